@@ -323,7 +323,8 @@ class LinComb:
 
         if isinstance(other, LinComb):
             if other.value == 0:
-                raise ValueError("Division by zero")
+                if not ignore_errors(): raise ValueError("Division by zero")
+                res = PrivVal(0)
             elif is_guard() and (self.value % other.value == 0):
                 res = PrivVal(self.value // other.value)
             elif ignore_errors():
@@ -365,8 +366,10 @@ class LinComb:
 
         if isinstance(divisor, LinComb):
             if divisor.value == 0:
-                raise ValueError("Division by zero")
-            quo = PrivVal(self.value // divisor.value)
+                if not ignore_errors(): raise ValueError("Division by zero")
+                quo = PrivVal(0)
+            else:
+                quo = PrivVal(self.value // divisor.value)
             res = quo * divisor
             rem = PrivVal(self.value - res.value)
 
